@@ -264,7 +264,12 @@ def run(ctx):
     base = open(os.path.join(d, "design_ckpt_cex.cfg")).read()
     for name, const in EXCUSES.items():
         with open(os.path.join(d, "cex.cfg"), "w") as f:
-            f.write(base.replace("Excuse <- ExceptRetry", "Excuse <- " + const))
+            txt = base.replace("Excuse <- ExceptRetry", "Excuse <- " + const)
+            if name == "done-after-abort":
+                # the restorer of the tree before fix 1bc4d41 (transcribed under RestorerFixed = FALSE) breaks the rule; the design
+                # runs above use the fixed restorer and hold without this excuse
+                txt = txt.replace("RestorerFixed = TRUE", "RestorerFixed = FALSE")
+            f.write(txt)
         r = vlib.run_tlc(ctx, d, "MCCheckpoint", "cex.cfg", timeout=600)
         if r.error or r.violated is None:
             raise vlib.Infra("model counterexample for '%s' not found (rc=%s error=%s): the model no longer contains the shape" % (name, r.rc, r.error))
